@@ -77,12 +77,19 @@ func (c Command) Bin() []byte {
 		b := binHeader(op, len(c.Key), 0, len(c.Key)+len(c.Data), c.Opaque)
 		b = append(b, c.Key...)
 		return append(b, c.Data...)
-	case "get":
+	case "get", "gete":
 		var b []byte
 		for i, k := range c.Keys {
 			op := uint8(0x00)
 			if k.Quiet {
 				op = 0x09
+			}
+			if c.Kind == "gete" {
+				// get-with-expiry: GetE 0x40 / GetEQ 0x41
+				op += 0x40
+				if k.Quiet {
+					op = 0x41
+				}
 			}
 			_ = i
 			b = append(b, binHeader(op, len(k.Key), 0, len(k.Key), k.Opaque)...)
@@ -157,7 +164,7 @@ func (c Command) Encode(proto string) []byte {
 
 func (c Command) Describe() string {
 	switch c.Kind {
-	case "get":
+	case "get", "gete":
 		var ks []string
 		for _, k := range c.Keys {
 			q := ""
@@ -170,7 +177,7 @@ func (c Command) Describe() string {
 		if c.NoopEnd {
 			e = "+noop"
 		}
-		return "get " + strings.Join(ks, ",") + e
+		return c.Kind + " " + strings.Join(ks, ",") + e
 	case "raw":
 		return "raw " + canon(c.Raw)
 	case "set", "add", "replace", "append", "prepend":
@@ -457,6 +464,8 @@ func runScenario(d *Driver, sc Scenario, timeout time.Duration, oracle bool, res
 			}
 			continue
 		}
+		// (the probe may have moved the model's clock to a later second)
+		d.Send(fmt.Sprintf("now %d", now0), 0)
 		r4 := d.Send(fmt.Sprintf("feed %s %s", s.Conn, hx(append(append([]byte{}, data...), sent...))), 4)
 		implOut := fmt.Sprintf("out %s %s", canonN(256, out), ending)
 		if r4[0] != implOut {
@@ -468,7 +477,7 @@ func runScenario(d *Driver, sc Scenario, timeout time.Duration, oracle bool, res
 			firstDiv = diverge(i, "L1 requests", t, r4[1])
 			continue
 		}
-		if t := "trace2 " + traceLine(l2); strings.TrimSpace(t) != strings.TrimSpace(r4[2]) {
+		if t := "trace2 " + traceLine(l2); strings.TrimSpace(t) != strings.TrimSpace(r4[2]) && !abortedReadsPrefix(ending, t, r4[2]) {
 			firstDiv = diverge(i, "L2 requests", t, r4[2])
 			continue
 		}
@@ -535,6 +544,31 @@ func runScenario(d *Driver, sc Scenario, timeout time.Duration, oracle bool, res
 	return firstDiv, false, obs
 }
 
+// abortedReadsPrefix: the handler's Get/GetE runs in its own goroutine and streams its answers to
+// the orchestrator; when the orchestrator dies in the middle (a panic closes the connection) that
+// goroutine is cut off wherever it happens to be, so the requests the backend saw may be a prefix
+// of the model's (which performs the whole read first). Only reads may be missing.
+func abortedReadsPrefix(ending, impl, model string) bool {
+	if ending == "eof" {
+		return false
+	}
+	a, b := strings.Fields(impl), strings.Fields(model)
+	if len(a) > len(b) {
+		return false
+	}
+	for i := range a {
+		if a[i] != b[i] {
+			return false
+		}
+	}
+	for _, e := range b[len(a):] {
+		if !strings.HasPrefix(e, "get") {
+			return false
+		}
+	}
+	return true
+}
+
 func sortStrings(xs []string) {
 	for i := 1; i < len(xs); i++ {
 		for j := i; j > 0 && xs[j] < xs[j-1]; j-- {
@@ -549,6 +583,7 @@ func sortStrings(xs []string) {
 type Gen struct {
 	r    *rand.Rand
 	keys [][]byte // overrides the default key alphabet
+	getE bool     // also generate get-with-expiry (binary connections)
 }
 
 var keyAlphabet = []string{"a", "b", "foo", "k1", "key-7", "zz"}
@@ -628,6 +663,9 @@ func (g *Gen) Command(proto string, now int64, maxChunks int) Command {
 	key := g.Key()
 	c := Command{Key: key, Opaque: g.r.Uint32()}
 	kinds := []string{"set", "set", "set", "add", "replace", "append", "prepend", "get", "get", "get", "get", "delete", "touch", "gat", "gat"}
+	if g.getE {
+		kinds = append(kinds, "gete")
+	}
 	if proto == "text" {
 		kinds = []string{"set", "set", "set", "add", "replace", "append", "prepend", "get", "get", "get", "get", "delete", "touch", "touch"}
 	}
@@ -642,7 +680,7 @@ func (g *Gen) Command(proto string, now int64, maxChunks int) Command {
 		}
 	case "touch", "gat":
 		c.Exptime = g.TTL(now)
-	case "get":
+	case "get", "gete":
 		n := 1 + g.r.Intn(4)
 		if g.r.Intn(3) == 0 {
 			n = 1
